@@ -40,3 +40,42 @@ func ownAttrLookups(c *cx, id string, in func(f *eng.Fn) bool) {
 		c.r.Floor(id, "value returns of attr.Own", nr, 1)
 	}
 }
+
+// idTypFromOwnAttributes (C06.16/C07.8): getIDTyp yields the id and type the
+// session correlates responses and replies by. They are the stanza's own,
+// unqualified attributes: every value it takes from an attribute of the list
+// is taken under the test Name.Space == "" (or comes from attr.Own). With a
+// namespace-blind lookup, <iq xml:id="B" id="A" type="result"/> is handed to
+// the caller waiting for B, and A's caller never gets its reply.
+func idTypFromOwnAttributes(c *cx, id string) {
+	f := c.fn(id, "", "getIDTyp")
+	if f == nil {
+		return
+	}
+	g := f.Graph()
+	n := 0
+	for _, cl := range f.Calls("internal/attr.Get") {
+		n++
+		c.r.Check(id, f, "attribute lookup "+f.Norm(cl, nil), "C: the stanza's id and type are its own (unqualified) attributes: attr.Own, not attr.Get", cl.Pos(), false, "attr.Get matches the attribute in any namespace (xml:id, x:type)")
+	}
+	for _, cl := range f.Calls("internal/attr.Own") {
+		n++
+		c.r.Check(id, f, "attribute lookup "+f.Norm(cl, nil), "C: the stanza's id and type are its own (unqualified) attributes", cl.Pos(), true, "")
+	}
+	for _, w := range f.Writes() {
+		if w.RHS == nil {
+			continue
+		}
+		pt, ok := g.Where(w.Stmt)
+		if !ok {
+			continue
+		}
+		rhs := f.Norm(w.RHS, &pt)
+		if rhs != "rangeval(p0).Value" && rhs != "rangekey(p0)" {
+			continue
+		}
+		n++
+		c.dom(id, f, w.Stmt, "value taken from an attribute ("+rhs+")", []string{"eq(rangeval(p0).Name.Space,\"\")"})
+	}
+	c.r.Floor(id, "attribute values taken in getIDTyp", n, 2)
+}
